@@ -78,6 +78,7 @@ type Unit struct {
 	nbind     int
 	defDeps   map[string]termDeps
 	opts      UnitOpts
+	boxedSlices map[string]*V
 	epochSnaps map[int]epochSnap
 	localRefs  []T // references of non-escaping local variables of the frames being executed
 	strDeclared, rootDeclared bool
